@@ -94,6 +94,9 @@ SCENARIOS = {
     # fallback: the stand-in breaks while keyed picks are placed and the key is unbound
     "fallback-unbind": (C(1, 2, 1, fb=True), [R(), S(1, "READY"), P("BIND"), D(1, "OK", [1]), P(), P(), S(2, "READY"), S(1, "TF"), P("UNBIND", [1])],
                         [D(4, "OK"), P("BOUND", [1]), S(1, "READY")], [P("BOUND", [1]), P("BIND"), D(6, "OK", [1]), P("BOUND", [1])]),
+    # fallback: the channel chosen as stand-in fails while the keyed pick that chose it is still running (three channels)
+    "fallback-fail": (C(1, 3, 1, fb=True), [R(), S(1, "READY"), P("BIND"), D(1, "OK", [1]), P(), P(), S(2, "READY"), P(), P(), S(3, "READY"), S(1, "TF")],
+                      [P("BOUND", [1]), S(3, "TF")], [P("BOUND", [1]), P("BOUND", [1]), S(3, "READY"), P("BOUND", [1])]),
     # round-robin BINDs from several goroutines (all channels READY: none waits)
     "rr": (C(2, 2, 100, rr=True), [R(), S(1, "READY"), S(2, "READY"), P("BIND")],
            [P("BIND"), P("BIND"), P("BIND")], [P("BIND"), P("BIND")]),
@@ -112,7 +115,7 @@ PROP_SCENARIOS = {
     # C07 quantifies over timed histories: only the race whose every sequential reading is covered by the statement
     # ("no refresh already in progress", "exactly one replacement") is judged against it
     "C07": ["refresh2"],
-    "C08": ["fallback", "fallback-unbind"],
+    "C08": ["fallback", "fallback-unbind", "fallback-fail"],
     "C09": ["rr", "rr-state"],
     "C20": ["resolve-refresh", "resolve-growth"],
 }
